@@ -23,7 +23,20 @@ def _mul(a, b):
     return (min(ps), max(ps))
 
 
-def interval(t, env: Dict[str, Tuple[float, float]]) -> Tuple[float, float]:
+def interval(t, env: Dict[str, Tuple[float, float]], constraints=None) -> Tuple[float, float]:
+    """Interval of an expression; ``constraints`` = [(expr, lo, hi)] learnt from validation guards."""
+    if constraints:
+        lo, hi = _interval(t, env, constraints)
+        for (e, clo, chi) in constraints:
+            if e == t:
+                lo, hi = max(lo, clo), min(hi, chi)
+        return (lo, hi)
+    return _interval(t, env, None)
+
+
+def _interval(t, env, constraints) -> Tuple[float, float]:
+    def interval(x, env):       # recursive calls see the constraints
+        return globals()["interval"](x, env, constraints)
     k = t[0]
     if k == "num":
         return (t[1], t[1])
